@@ -503,3 +503,15 @@ Example C09_example_delete :
   blobs (fst (step succ_w subject_w manifest_w cfg_fixed false st (ODelete 1))) = [7; 5; 0] /\
   snd (step succ_w subject_w manifest_w cfg_fixed false st (ODelete 1)) = Ok.
 Proof. exact example_delete. Qed.
+
+Example C09_example_cancel_resume :
+  blobs (mem (prun_w (cancel_pre ++ [PGCCancel false cancel_order 1]))) = [7; 2; 1; 0] /\
+  snd (pstep succ_w subject_w manifest_w cfg_fixed true (prun_w cancel_pre) (PGCCancel false cancel_order 1)) = ECanceled /\
+  blobs (mem (prun_w (cancel_pre ++ [PGCCancel false cancel_order 3]))) = [2; 1; 0] /\
+  blobs (mem (prun_w (cancel_pre ++ [PGCCancel false cancel_order 1; PO OGC]))) = [2; 1; 0] /\
+  blobs (mem (prun_w (cancel_pre ++ [PO OGC]))) = [2; 1; 0] /\
+  disk (prun_w (cancel_pre ++ [PGCCancel false cancel_order 1])) = disk (prun_w (cancel_pre ++ [PO OGC])).
+Proof. exact example_cancel_resume. Qed.
+
+Example C09_example_pstate_ok : pstate_ok (prun_w (cancel_pre ++ [PGCCancel false cancel_order 1])).
+Proof. exact example_pstate_ok. Qed.
